@@ -62,6 +62,16 @@ def one(ctx, LP, D, ph, mode):
             merges.append(([float(x) for x in kids[0]], [float(x) for x in kids[1]], [float(x) for x in r]))
         stack[-1].append(list(r))
         return r
+    systems, orig_ls = [], D.linear_system
+
+    def wrapped_ls(h, ldeg):
+        m, s = orig_ls(h, ldeg)
+        if len(systems) < 4:
+            dg = h.degree
+            systems.append(([float(x) for x in h.IPoly.aligned(-dg, dg)], [float(x) for x in h.XPoly.aligned(-dg, dg)], int(ldeg),
+                            np.array(m, dtype=float).copy(), np.array(s, dtype=float).copy()))
+        return m, s
+    D.linear_system = wrapped_ls
     D.angseq = wrapped
     try:
         with core.quiet():
@@ -73,6 +83,7 @@ def one(ctx, LP, D, ph, mode):
         out, ph2 = type(e).__name__ + ": " + str(e)[:60], None
     finally:
         D.angseq = orig
+        D.linear_system = orig_ls
     ctx.count("n=%d" % n if n <= 8 else "n>8")
     ctx.count("mode:" + mode)
     ctx.case([ph], True, {"n": n, "mode": mode, "phases": ph[:5], "outcome": out[:30]})
@@ -105,6 +116,19 @@ def one(ctx, LP, D, ph, mode):
             ctx.violation("c06:glue", "a recursion step of angseq does not glue its two phase lists as a[:-1] + [a[-1]+b[0]] + b[1:] (model: mergeAngles)",
                           dict(replay, left=a_, right=b_, merged=r_), found_input=False)
             return
+    # the linear system each split solves is the model's linSys (C06d: M vec(l) = vec(l*g); the selected rows say exactly
+    # "l(1) = Id and deg(l g) <= deg - ldeg"): every entry is a copy of a coefficient of g, so the comparison is exact
+    for ai, ax, ldeg, m, s_ in systems:
+        mo = drv.ask("lin.sys %d %s %s" % (ldeg, rl(F(x) for x in ai), rl(F(x) for x in ax))).split()
+        rows = [core.pl(r) for r in mo[0].split(";")]
+        rhs = core.pl(mo[1])
+        ctx.count("linear-system-compared")
+        same = len(rows) == m.shape[0] and all(len(r) == m.shape[1] for r in rows) and len(rhs) == len(s_) \
+            and all(F(float(m[i, j])) == rows[i][j] for i in range(m.shape[0]) for j in range(m.shape[1])) and all(F(float(a)) == b for a, b in zip(s_, rhs))
+        if not same:
+            ctx.violation("c06:linear-system", "the linear system built by decomposition.linear_system differs from the model's (rows selected, signs, reversal or right-hand side changed)",
+                          dict(replay, ldeg=ldeg, degree=len(ai) - 1, python_shape=list(m.shape), model_shape=[len(rows), len(rows[0]) if rows else 0]), found_input=False)
+            return
     # literal clause: the library-built elements agree coefficient-wise within 1e-8 (exact rationals)
     g2 = LP.LAlg.unitary_from_angles(ph2)
     for comp, c1, c2 in (("I", g.IPoly, g2.IPoly), ("X", g.XPoly, g2.XPoly)):
@@ -116,7 +140,7 @@ def one(ctx, LP, D, ph, mode):
 
 
 def run(tier, seed):
-    ctx = core.Ctx(PROP, tier, seed, "translation_validation", ["C06", "C06b", "C06c"])
+    ctx = core.Ctx(PROP, tier, seed, "translation_validation", ["C06", "C06b", "C06c", "C06d"])
     ctx.axioms = core.audit(ctx.modules)
     import pyqsp.LPoly as LP
     import pyqsp.decomposition as D
@@ -141,7 +165,7 @@ def run(tier, seed):
 def replay(path):
     import json
     c = json.load(open(path))
-    ctx = core.Ctx(PROP, "quick", c.get("seed", 0), "translation_validation", ["C06", "C06b", "C06c"])
+    ctx = core.Ctx(PROP, "quick", c.get("seed", 0), "translation_validation", ["C06", "C06b", "C06c", "C06d"])
     import pyqsp.LPoly as LP
     import pyqsp.decomposition as D
     one(ctx, LP, D, c["phases"], c.get("mode", "?"))
